@@ -243,3 +243,10 @@ pub use d_engine_core::storage_engine_test;
 #[cfg(test)]
 #[doc(hidden)]
 pub(crate) mod test_utils;
+
+/// Verification hooks (feature `verif-hooks`, default off): re-exports of crate-private
+/// building blocks so that an external harness can assemble nodes exactly as
+/// `NodeBuilder::build` does. Additive only; nothing here is compiled without the feature.
+#[cfg(feature = "verif-hooks")]
+#[doc(hidden)]
+pub mod verif_exports;
